@@ -138,6 +138,7 @@ func notifyQueue() {
 func (t *Task) Queue() *Task {
 	t.lock.Lock()
 	defer t.lock.Unlock()
+	defer verifTaskOp("tasks:queue", t)()
 
 	if !t.prepForQueueing() {
 		return t
@@ -157,6 +158,7 @@ func (t *Task) Queue() *Task {
 func (t *Task) QueuePrioritized() *Task {
 	t.lock.Lock()
 	defer t.lock.Unlock()
+	defer verifTaskOp("tasks:queue-prio", t)()
 
 	if !t.prepForQueueing() {
 		return t
@@ -176,6 +178,7 @@ func (t *Task) QueuePrioritized() *Task {
 func (t *Task) StartASAP() *Task {
 	t.lock.Lock()
 	defer t.lock.Unlock()
+	defer verifTaskOp("tasks:asap", t)()
 
 	if !t.prepForQueueing() {
 		return t
@@ -197,6 +200,7 @@ func (t *Task) StartASAP() *Task {
 func (t *Task) MaxDelay(maxDelay time.Duration) *Task {
 	t.lock.Lock()
 	defer t.lock.Unlock()
+	defer verifTaskOp("tasks:max-delay", t)()
 
 	t.maxDelay = maxDelay
 	return t
@@ -206,6 +210,7 @@ func (t *Task) MaxDelay(maxDelay time.Duration) *Task {
 func (t *Task) Schedule(executeAt time.Time) *Task {
 	t.lock.Lock()
 	defer t.lock.Unlock()
+	defer verifTaskOp("tasks:schedule", t)()
 
 	t.executeAt = executeAt
 
@@ -243,6 +248,7 @@ func (t *Task) Repeat(interval time.Duration) *Task {
 func (t *Task) Cancel() {
 	t.lock.Lock()
 	defer t.lock.Unlock()
+	defer verifTaskOp("tasks:cancel", t)()
 
 	t.canceled = true
 	if t.cancelCtx != nil {
@@ -274,13 +280,16 @@ func (t *Task) removeFromQueues() {
 }
 
 func (t *Task) runWithLocking() {
+	verifEvent("yield:tasks:run-enter", t)
 	t.lock.Lock()
+	verifEvent("tasks:run:begin", t)
 
 	// we will not attempt execution, remove from queues
 	t.removeFromQueues()
 
 	// check if task is already executing
 	if t.executing {
+		verifTaskEnd("tasks:run:skip-executing", t)
 		t.lock.Unlock()
 		return
 	}
@@ -289,6 +298,7 @@ func (t *Task) runWithLocking() {
 	// - has not been cancelled
 	// - module is online (soon)
 	if !t.isActive() {
+		verifTaskEnd("tasks:run:skip-inactive", t)
 		t.lock.Unlock()
 		return
 	}
@@ -296,6 +306,7 @@ func (t *Task) runWithLocking() {
 	// check if module was stopped
 	select {
 	case <-t.ctx.Done():
+		verifTaskEnd("tasks:run:skip-ctx", t)
 		t.lock.Unlock()
 		return
 	default:
@@ -303,7 +314,9 @@ func (t *Task) runWithLocking() {
 
 	// enter executing state
 	t.executing = true
+	verifTaskEnd("tasks:run:start", t)
 	t.lock.Unlock()
+	verifEvent("yield:tasks:run-checked", t)
 
 	// wait for good timeslot regarding microtasks
 	select {
@@ -327,6 +340,7 @@ func (t *Task) runWithLocking() {
 
 	// add to queue workgroup
 	queueWg.Add(1)
+	verifEvent("tasks:spawn", t)
 
 	go t.executeWithLocking()
 	go func() {
@@ -335,6 +349,7 @@ func (t *Task) runWithLocking() {
 		case <-time.After(maxExecutionWait):
 		}
 		// complete queue worker (early) to allow next worker
+		verifEvent("tasks:slot-free", t)
 		queueWg.Done()
 	}()
 }
@@ -360,8 +375,10 @@ func (t *Task) executeWithLocking() {
 		atomic.AddInt32(t.module.taskCnt, -1)
 		verifEvent("post", t.module.Name)
 		t.module.checkIfStopComplete()
+		verifEvent("yield:tasks:exec-finish", t)
 
 		t.lock.Lock()
+		verifEvent("tasks:finish:begin", t)
 
 		// reset state
 		t.executing = false
@@ -378,6 +395,7 @@ func (t *Task) executeWithLocking() {
 
 		// RACE CONDITION with L314!
 		t.ctx, t.cancelCtx = context.WithCancel(t.module.Ctx)
+		verifTaskEnd("tasks:finish:end", t)
 
 		t.lock.Unlock()
 	}()
@@ -479,6 +497,7 @@ func taskQueueHandler() {
 	execLoop:
 		for {
 			// wait for execution slot
+			verifEvent("tasks:qh-wait")
 			queueWg.Wait()
 
 			// check for shutdown
@@ -487,6 +506,7 @@ func taskQueueHandler() {
 			}
 
 			// get next Task
+			verifEvent("tasks:qh-pop:begin")
 			queuesLock.Lock()
 			e := prioritizedTaskQueue.Front()
 			if e != nil {
@@ -498,6 +518,7 @@ func taskQueueHandler() {
 				}
 			}
 			queuesLock.Unlock()
+			verifEvent("tasks:qh-pop:end", e)
 
 			// lists are empty
 			if e == nil {
@@ -535,11 +556,13 @@ func taskScheduleHandler() {
 		case <-notifyTaskScheduler:
 			continue
 		case <-waitUntilNextScheduledTask():
+			verifEvent("tasks:sh-fetch:begin")
 			scheduleLock.Lock()
 
 			// get first task in schedule
 			e := taskSchedule.Front()
 			if e == nil {
+				verifEvent("tasks:sh-fetch:none")
 				scheduleLock.Unlock()
 				continue
 			}
@@ -549,12 +572,14 @@ func taskScheduleHandler() {
 			if t.overtime {
 				// already queued and maxDelay reached
 				t.overtime = false
+				verifTaskEnd("tasks:sh-fetch:run", t)
 				scheduleLock.Unlock()
 
 				t.runWithLocking()
 			} else {
 				// place in front of prioritized queue
 				t.overtime = true
+				verifTaskEnd("tasks:sh-fetch:asap", t)
 				scheduleLock.Unlock()
 
 				t.StartASAP()
